@@ -15,7 +15,7 @@ class MetaOnly(Suite):
             "(fresh, edited, holding a listing file or a symlink/directory with that name); non-trivial = >= 1 selected path, distinct")
 
     def gen(self, rng, tier):
-        n = {"quick": 400, "thorough": 5000, "search": 100}[tier]
+        n = {"quick": 800, "thorough": 5000, "search": 100}[tier]
         ops = []
         for _ in range(n):
             bigp = None
@@ -102,6 +102,10 @@ class MetaOnly(Suite):
                 dst.append({"p": META, "t": "file", "size": 11, "uid": 0, "gid": 0, "mt": gen.MTIMES[1], "mode": 0o600})
             elif r < 0.25:
                 dst.append({"p": META, "t": "symlink", "ln": hx(b"/nonexistent/zz"), "uid": 0, "gid": 0, "mt": gen.MTIMES[1], "mode": 0o777})
+            elif r < 0.35:
+                dst.append({"p": META, "t": "dir", "uid": 0, "gid": 0, "mt": gen.MTIMES[1], "mode": 0o755})
+                if rng.random() < 0.7:
+                    dst.append({"p": META + "2f" + hx(b"old"), "t": "file", "size": 3, "uid": 0, "gid": 0, "mt": gen.MTIMES[1], "mode": 0o644})
             dst.sort(key=lambda e: gen.pathkey(bytes.fromhex(e["p"])))
             ops.append({"op": "sync", "src": {"kind": "mem", "tree": tree}, "dst": dst,
                         "opt": {"notify": True, "cap": rng.choice([0, 4, 32]), "seed": rng.randrange(1 << 30), "metaonly": sel}})
